@@ -785,6 +785,7 @@ type stackConfig struct {
 	vertical     bool
 	replicaLabel bool
 	retentionRaw time.Duration
+	fetchConc    int // --block-meta-fetch-concurrency; 0 = defaultMetaFetchConcurrency
 }
 
 type stack struct {
@@ -812,13 +813,17 @@ func (f syncMarkFetcher) Fetch(ctx context.Context) (map[ulid.ULID]*metadata.Met
 	return f.MetadataFetcher.Fetch(ctx)
 }
 
-const metaFetchConcurrency = 4 // --block-meta-fetch-concurrency (default 32)
+const defaultMetaFetchConcurrency = 4 // --block-meta-fetch-concurrency (default 32)
 
 func newStack(ctx context.Context, ob *opBucket, cfg stackConfig) (*stack, error) {
 	logger := newTestLogger()
 	reg := prometheus.NewRegistry()
 	s := &stack{cfg: cfg, logger: logger}
 	deleteDelay := cfg.deleteDelay
+	metaFetchConcurrency := cfg.fetchConc
+	if metaFetchConcurrency <= 0 {
+		metaFetchConcurrency = defaultMetaFetchConcurrency
+	}
 
 	blocksMarked := prometheus.NewCounterVec(prometheus.CounterOpts{Name: "verif_blocks_marked"}, []string{"marker", "reason"})
 	s.marked = blocksMarked.WithLabelValues(metadata.DeletionMarkFilename, "")
